@@ -292,6 +292,10 @@ func (d *zzC13ChanDB) configure(inc *zzIncarnation, cfg *ChannelArbitratorConfig
 	}
 	v := d.load()
 	d.epoch, d.registered, d.channel = inc.epoch, false, v.open
+	if n := d.ex.nurse; n != nil {
+		// server.go: ChainArbitratorConfig.IncubateOutputs = utxoNursery.IncubateOutputs
+		cfg.IncubateOutputs = n.incubateFn(inc)
+	}
 	// NewChainArbitrator, minus everything ResolveContract does not touch
 	d.chainArb = &ChainArbitrator{
 		activeChannels: make(map[wire.OutPoint]*ChannelArbitrator),
